@@ -1,6 +1,7 @@
 package main
 
 import (
+	"slices"
 	"crypto/sha256"
 	"encoding/hex"
 	"encoding/json"
@@ -52,6 +53,8 @@ func smallSuite(sems []Sem) []reqSpec {
 	add("OPTIONS")
 	add("GET", hOrigin, "https://unrelated.example.net")
 	add("OPTIONS", hOrigin, "https://unrelated.example.net", hACRM, "PUT")
+	add("GET", hOrigin, "https://reused.example") // the origin a caller writes into a Config it passes again (mode multi)
+	add("OPTIONS", hOrigin, "https://reused.example", hACRM, "PUT")
 	for _, s := range sems {
 		for _, p := range s.Pats {
 			o := originFromPattern(rng, p).String()
@@ -462,6 +465,7 @@ func cmdLife(args []string) {
 			lr.resetKeep(abSuite)
 			ncases++
 			args := map[string]*cors.Config{} // the Config last handed to middleware i, still owned by the caller
+			argLabel := map[string]string{}
 			pick := func(c string) *cors.Config {
 				switch c {
 				case "A":
@@ -481,14 +485,14 @@ func cmdLife(args []string) {
 				switch st.K {
 				case "new":
 					a := pick(st.C)
-					args[id] = a
+					args[id], argLabel[id] = a, st.C
 					lr.newMW(id, st.C, *a)
 				case "setdebug":
 					lr.setDebug(id, st.B)
 				case "reconf":
 					a := pick(st.C)
 					if a != nil {
-						args[id] = a
+						args[id], argLabel[id] = a, st.C
 					}
 					lr.reconf(id, st.C, a)
 				case "mutarg":
@@ -503,10 +507,30 @@ func cmdLife(args []string) {
 					t.emit(map[string]any{"ev": "Stutter", "what": "scribbled over " + id + ".Config()"})
 				case "servemut":
 					lr.mutatingServe(id, with)
+				case "reuse":
+					// the caller edits the Config it passed before IN PLACE (element write, same slices) and passes the very
+					// same value again; afterwards the middleware must allow the origin written into it (Reused events)
+					a := args[id]
+					if a == nil || len(a.Origins) == 0 {
+						fatal("reuse without a retained argument")
+					}
+					a.Origins[0] = "https://reused.example"
+					label := argLabel[id]
+					if !strings.HasSuffix(label, "R") {
+						label += "R"
+					}
+					argLabel[id] = label
+					lr.reconf(id, label, a)
 				}
 				ops = append(ops, fmt.Sprintf("%s(%s,%s%v)", st.K, id, st.C, st.B))
 				lr.observe("m1")
 				lr.observe("m2")
+				for _, x := range []string{"m1", "m2"} {
+					if m := lr.mws[x]; m != nil {
+						act, pf := originAllowedByMiddleware(m.Wrap(okHandler), "https://reused.example")
+						t.emit(map[string]any{"ev": "Reused", "mw": x, "allowed": act && pf, "either": act || pf})
+					}
+				}
 			}
 			if len(samples) < 3 {
 				samples = append(samples, ops)
@@ -698,6 +722,16 @@ func cmdLife(args []string) {
 	case "twins":
 		for ncases < *n {
 			s := randSem(rng)
+			if ncases%3 == 1 && len(s.HNames) > 0 && !s.HStar && !(len(s.Expose) == 1 && s.Expose[0] == "*") {
+				// a name listed in BOTH header lists (they are independent sets)
+				for _, n := range s.HNames {
+					if n != "authorization" && !slices.Contains(safelistedRespHdrs, n) && !slices.Contains(s.Expose, n) {
+						s.Expose = append(s.Expose, n)
+						break
+					}
+				}
+				sort.Strings(s.Expose)
+			}
 			if ncases%5 == 0 { // more structure: a wildcard next to subdomain patterns of the same base
 				s.Any = false
 				s.Pats = family(rng, family(rng, nil))
